@@ -246,58 +246,37 @@ def rule_bases(ctx, R):
 
 
 def rule_num_codec(ctx, R):
-    """Num::from_string inverts Display for NaN, integers and fractions, with and without sign"""
+    """Num::from_string inverts Display for NaN, integers and fractions, with and without sign: abstract
+    interpretation of the decoder over the shape domain of Display's image (rules/shape.py)"""
+    from .shape import decode_table
     fb = ctx.fb
     b = fb.bodies.get("number::num::Num::from_string")
     if not R.anchor(b is not None, "from_string", "Num::from_string"):
         return
     R.analyse(b.name)
-    cfg = normal_cfg(b)
-    org = Origins(b, fb)
-    roles = Roles(b, fb, param_roles=PR(b))
-    consts = set()
-    for bi, t in b.calls():
-        for a in t["args"]:
-            o = org.of_operand(a, bi, "t")
-            if o[0] == "const":
-                consts.add(o[2])
-    # the NaN literal equals Display's
+    # the shapes Display prints: the NaN text (read from Display's own body), D, -D, D/D, -D/D (C06.DISPLAY / C09.DISPLAY
+    # decide that these are the shapes; the sign is printed by BigNum's writer in front of the numerator, C09.WRITER)
     disp = fb.bodies.get("<number::num::Num as core::fmt::Display>::fmt")
     dlits = set()
     if disp is not None:
         od = Origins(disp, fb)
         for bi, t in disp.calls():
-            for a in t["args"]:
-                o = od.of_operand(a, bi, "t")
-                if o[0] == "const" and isinstance(o[2], str):
+            for a_ in t["args"]:
+                o = od.of_operand(a_, bi, "t")
+                if o[0] == "const" and isinstance(o[2], str) and len(o[2]) > 1:
                     dlits.add(o[2])
-    nan_lits = {c for c in consts if isinstance(c, str) and len(c) > 1}
-    R.check(bool(nan_lits) and nan_lits <= dlits, "num:nan_literal", "the NaN text read back is the text Display prints: %s" % sorted(nan_lits))
-    R.check(ord("/") in consts or "/" in consts, "num:separator", "the reader splits on '/' (Display prints numerator/denominator)")
-    R.check(ord("-") in consts or "-" in consts, "num:minus", "the reader recognises a leading '-'")
-    # every non-NaN return passes through the sign re-application: the minus() call under the starts_with flag
-    minus_calls = [bi for bi, t in b.calls() if callee_name(t["f"], fb) == "number::num::Num::minus"]
-    sw = [bi for bi, t in b.calls() if callee_name(t["f"], fb).endswith("str::starts_with") or callee_name(t["f"], fb).endswith("::starts_with")]
-    fbn = [bi for bi, t in b.calls() if callee_name(t["f"], fb) == "number::num::Num::from_big_num"]
-    R.check(len(fbn) >= 2, "num:shapes", "integer and fraction shapes are both parsed through from_big_num (canonicalising)")
-    ok = bool(minus_calls) and bool(sw)
-    if ok:
-        # from every from_big_num call, the (neg -> minus) decision is still ahead: the branch on the flag post-dominates
-        ev_ = Events(b, fb, roles=roles)
-        flag_edges_true = []
-        for gb, blk in enumerate(b.blocks):
-            tt = blk["term"]
-            if tt["k"] == "switch" and tt["xty"] == "bool":
-                for s in cfg.succ[gb]:
-                    lab = ev_.generic_edge(gb, tt, s)
-                    if lab and "starts_with" in lab and lab.endswith("=1") and any(reaches_without(cfg, [s], m) for m in minus_calls):
-                        flag_edges_true.append((gb, s))
-        for fb_ in fbn:
-            # cut the true edges that lead to minus(): if a return is still reachable *through a path on which the flag was true*, sign is lost.
-            # structural form: every path from from_big_num to return passes through a block that tests the flag again
-            tests = {gb for gb, _ in flag_edges_true}
-            ok = ok and bool(tests) and not any(reaches_without(cfg, cfg.succ[fb_], r, cut_blocks=tests) for r in cfg.returns)
-    R.check(ok, "num:sign_every_shape", "after parsing either shape (integer or fraction) control reaches the sign re-application test before returning", b.span)
+    if not R.anchor(len(dlits) == 1, "nan_text", "the one text literal Display prints (NaN): %s" % sorted(dlits)):
+        return
+    nan_text = dlits.pop()
+    inputs = {"nan": ("NAN",), "integer": ("D1",), "negative integer": ("-", "D1"), "fraction": ("D1", "/", "D2"), "negative fraction": ("-", "D1", "/", "D2")}
+    want = {"nan": ("nan",), "integer": ("num", 1, "D1", "1"), "negative integer": ("num", -1, "D1", "1"), "fraction": ("num", 1, "D1", "D2"), "negative fraction": ("num", -1, "D1", "D2")}
+    flip = lambda v: ("num", -v[1], v[2], v[3]) if isinstance(v, tuple) and v[0] == "num" else v
+    table, n_paths = decode_table(b, fb, inputs, {nan_text: ("NAN",)}, {"number::num::Num::minus": flip})
+    R.floor("decoder_paths", n_paths, 5, "acyclic paths of Num::from_string")
+    for nm in inputs:
+        got = table[nm]
+        ok = got == ("value", want[nm])
+        R.check(ok, "num:decode:%s" % nm.replace(" ", "_"), "the text Display prints for a %s (%s) is read back as %s; the analysis found %s" % (nm, " ".join(inputs[nm]), want[nm], got), b.span)
 
 
 def rule_embed(ctx, R):
